@@ -1515,6 +1515,9 @@ def _resolve_nested(v, cond, lab, depth=0):
 _STD_IDX = {"Option": {"None": "0", "Some": "1"}, "Result": {"Ok": "0", "Err": "1"}, "ControlFlow": {"Continue": "0", "Break": "1"}, "Poll": {"Ready": "0", "Pending": "1"}}
 
 
+WORKSPACE_DISCR = {}  # adt path -> {variant name: discriminant}; filled by core.load_program
+
+
 def _decide_label(cond, labs):
     """is the switch operand `cond` known to take (True) / not to take (False) the edge `labs`?  None = unknown"""
     if not isinstance(cond, tuple) or not cond:
@@ -1531,6 +1534,9 @@ def _decide_label(cond, labs):
                 return lab_holds(labs, "1")
             return None
         idx = _STD_IDX.get(adt, {}).get(cond[1][2])
+        if idx is not None:
+            return lab_holds(labs, idx)
+        idx = WORKSPACE_DISCR.get(cond[1][1], {}).get(cond[1][2])
         if idx is not None:
             return lab_holds(labs, idx)
     return None
